@@ -51,7 +51,7 @@ pub fn run(ctx: &Ctx) -> i32 {
     total.merge(run_generated(ctx, &pool, "pool-with-timeouts", || case_strategy(PROFILE, max_ops, cfg_timeout_strategy()), ctx.cases(200_000, 5_000_000), 2000));
     // end-to-end leg: the real client stack with `with_timeout` against slow handlers (netsim)
     let e2e = crate::props::net::NetEngine { prop: "C19" };
-    total.merge(run_generated(ctx, &e2e, "netsim-client-timeout", || crate::props::net::c19_strategy(6), ctx.cases(8_000, 400_000), 300));
+    total.merge(run_generated(ctx, &e2e, "netsim-client-timeout", || crate::props::net::ordered(crate::props::net::c19_strategy(6)), ctx.cases(8_000, 400_000), 300));
     finish(
         ctx,
         started,
